@@ -79,6 +79,10 @@ type tokState struct {
 	Deposits    map[util.Uint160]*depRec
 	Blocked     map[util.Uint160]bool
 	Other       int // items of other prefixes (committee, gas per block, ...)
+	// Bad: balance items that are no serialized stack item any more (an integer
+	// beyond the VM's 256 bits): a violation (the number is far outside any
+	// supply), not a decoding problem of the harness.
+	Bad []string
 }
 
 func newTokState() *tokState {
@@ -165,6 +169,10 @@ func decode(dump map[string]string) (*tokState, error) {
 				return nil, bad(fmt.Errorf("account key of %d bytes", len(key)))
 			}
 			h, _ := util.Uint160DecodeBytesBE(key[1:])
+			if _, derr := stackitem.Deserialize(val); derr != nil && strings.Contains(derr.Error(), "too big") {
+				s.Bad = append(s.Bad, fmt.Sprintf("balance item %s = %s: %v", k, hv, derr))
+				break
+			}
 			if id == idGAS {
 				f, err := structFields(val, 1)
 				if err != nil {
@@ -400,7 +408,7 @@ func (s *tokState) staticInvariants(notaryActive bool) []viol {
 	if (notaryActive || len(s.Deposits) != 0) && nb.Cmp(sumDep) != 0 {
 		add("notary-deposits", "GAS.balanceOf(Notary) = %s, sum of deposits = %s", nb, sumDep)
 	}
-	return out
+	return append(out, s.aboveSupply()...)
 }
 
 // ---- Transfer events of a block ----------------------------------------------------
@@ -409,6 +417,40 @@ type execStat struct {
 	Tx    util.Uint256
 	State string // HALT | FAULT | HALT(true) | HALT(false)
 	Fault string
+	Ret   string // the result stack, rendered (booleans, integers, arrays of them)
+}
+
+// renderItem renders the small results the atoms return.
+func renderItem(it stackitem.Item, depth int) string {
+	switch it.Type() {
+	case stackitem.BooleanT:
+		v, _ := it.TryBool()
+		return fmt.Sprint(v)
+	case stackitem.IntegerT:
+		v, _ := it.TryInteger()
+		return v.String()
+	case stackitem.AnyT:
+		return "null"
+	case stackitem.ArrayT, stackitem.StructT:
+		f, _ := it.Value().([]stackitem.Item)
+		if depth > 2 || len(f) > 8 {
+			return fmt.Sprintf("[%d items]", len(f))
+		}
+		var l []string
+		for _, e := range f {
+			l = append(l, renderItem(e, depth+1))
+		}
+		return "[" + strings.Join(l, ",") + "]"
+	}
+	return it.Type().String()
+}
+
+func renderStack(st []stackitem.Item) string {
+	var l []string
+	for _, it := range st {
+		l = append(l, renderItem(it, 0))
+	}
+	return strings.Join(l, " ")
 }
 
 type blockEvents struct {
@@ -416,7 +458,8 @@ type blockEvents struct {
 	N        int                       // Transfer events counted
 	Mints    int
 	Burns    int
-	Neg      []string // Transfer events with a negative amount
+	Neg      []string                  // Transfer events with a negative amount
+	PreGAS   map[util.Uint160]*big.Int // net GAS per account of the OnPersist execution (before any transaction runs)
 	Execs    []execStat
 }
 
@@ -449,7 +492,7 @@ func side(it stackitem.Item) (*util.Uint160, error) {
 // collectEvents nets the Transfer events of block b: OnPersist and PostPersist
 // executions plus the Application executions that HALTed.
 func collectEvents(n *chainx.Node, b *block.Block) (*blockEvents, error) {
-	ev := &blockEvents{NEO: map[util.Uint160]*big.Int{}, GAS: map[util.Uint160]*big.Int{}}
+	ev := &blockEvents{NEO: map[util.Uint160]*big.Int{}, GAS: map[util.Uint160]*big.Int{}, PreGAS: map[util.Uint160]*big.Int{}}
 	take := func(aers []state.AppExecResult, what string) error {
 		for _, a := range aers {
 			if a.VMState != vmstate.Halt {
@@ -491,13 +534,20 @@ func collectEvents(n *chainx.Node, b *block.Block) (*blockEvents, error) {
 				if amt.Sign() < 0 {
 					ev.Neg = append(ev.Neg, fmt.Sprintf("%s Transfer event of %s with amount %s", what, e.ScriptHash.StringLE()[:8], amt))
 				}
+				pre := a.Trigger == trigger.OnPersist && e.ScriptHash == nativehashes.GasToken
 				if from != nil {
 					addTo(m, *from, amt, -1)
+					if pre {
+						addTo(ev.PreGAS, *from, amt, -1)
+					}
 				} else {
 					ev.Mints++
 				}
 				if to != nil {
 					addTo(m, *to, amt, +1)
+					if pre {
+						addTo(ev.PreGAS, *to, amt, +1)
+					}
 				} else {
 					ev.Burns++
 				}
@@ -534,7 +584,7 @@ func collectEvents(n *chainx.Node, b *block.Block) (*blockEvents, error) {
 			v, _ := aers[0].Stack[0].TryBool()
 			st += fmt.Sprintf("(%v)", v)
 		}
-		ev.Execs = append(ev.Execs, execStat{Tx: tx.Hash(), State: st, Fault: aers[0].FaultException})
+		ev.Execs = append(ev.Execs, execStat{Tx: tx.Hash(), State: st, Fault: aers[0].FaultException, Ret: renderStack(aers[0].Stack)})
 		if err := take(aers, "tx"); err != nil {
 			return nil, err
 		}
